@@ -1,0 +1,17 @@
+//go:build verif
+
+// Contracts for the deductive verifier in /verif (comment-only; compiled only with -tags verif).
+package record
+
+// Genesis import re-adds the exported records through AddRecord, starting from an empty store.
+// (ids of re-imported records are recomputed with counters 0..n-1: see C12, known finding.)
+//@ func InitGenesis
+//@   property C19
+//@   requires !has(counter) && (forall i:Bytes :: !has(records, i))
+//@   requires len(data.Records) < 4294967295
+//@   modifies records, counter
+//@   invariant #1 ctr:   keeper.CTR == rangeindex + 1 && rangeindex >= 0 - 1 && rangeindex < len(data.Records)
+//@   invariant #1 below: keeper.idsBelowCounter
+//@   ensures keeps: keeper.idsBelowCounter
+//@   ensures count: keeper.CTR == len(data.Records)
+//@ end
